@@ -6,7 +6,7 @@
 // The wrapper texts are hashed: a change makes the checks that rely on them UNDECIDED.
 // ================================================================================================
 impl<S: Storage> TaskDb<S> {
-//@watch C05 C15 :: src/taskdb/mod.rs :: impl<S: Storage> TaskDb<S> :: fn commit_operations
+// (TaskDb::commit_operations itself is verified in unit `taskdb`, which every property using this glue also runs: not hashed here)
     #[verifier::external_body]
     pub fn commit_operations<F>(&mut self, operations: Operations, add_to_working_set: F) -> (r: Result<()>)
         where F: Fn(&Operation) -> bool,
